@@ -16,7 +16,7 @@ Case syntax (one line; parsers: harness/src/engines/threads.rs `parse_case`, lea
 
 Observation (one line):   <kind> <call> <call> … | <table>=[rows] …
   kind   run | interr | hang:<t<i>#<k>,…> | panic@<file:line>[,hang:…]      (interr: some call answered with a class that no
-         statement of the case may produce; hang: calls that did not return within 10 s; panic: first panic of any thread)
+         statement of the case may produce; hang: calls that had not returned 10 s after their 10 s bound; panic: first panic of any thread)
   call   t<i>:<t0>:<t1>:<out>    t0 / t1 = tickets of one global counter drawn right before the call was issued / right after
          it returned; out as engine `hist` (ok | ok<n> | [sorted rows] | conflict | constraint | … | nosession); pad texts 'x*<n>'
   final contents: read by the harness after all client threads have finished
@@ -42,7 +42,7 @@ PROP = {
                      "AxVerif.Driver.Threads"],
     "rule": "one case = 2-8 client threads on one fresh database (own Session transactions and/or autocommit Database::execute calls; "
             "inserts, deletes, selects; UPDATE and the other known-finding features of C04 are kept out), started behind a barrier, paced "
-            "from the case's seed, every call under a 10 s watchdog inside a supervised child process. Clean shapes (each 1/7 of the clean "
+            "from the case's seed, every call under a watchdog (10 s bound) inside a supervised child process. Clean shapes (each 1/7 of the clean "
             "cases): 2 autocommit writers on own tables; 2-3 writers + readers of static tables; 3-5 session writers + session readers; the "
             "same over tables preloaded to several pages (cache 10000 or 32-64); readers scanning the very tables being written (one-page "
             "and multi-page); begin/commit stress (2 session writers x 6-8 transactions, 2 fast autocommit committers, 3-4 readers of the "
@@ -57,6 +57,8 @@ PROP = {
         "8 000 nodes, look-ahead on every begin, commits placed lazily) and then verified; an observation whose search runs out of budget is reported as `not-serialisable search-budget-exhausted` (0 of ~6 000 clean runs with the final search)",
         "rows are compared as sorted multisets of rendered values (SELECT * without ORDER BY); row ids are not observable",
         "error classes are read off the Display text, as in engine `hist`",
+        "a call counts as hung when it has not returned 10 s after its 10 s bound (a deadlock never returns; a stall of the loaded machine "
+        "does): calls that return between 10 s and 20 s are reported in the diagnostics (`slow-call`) and judged like any other",
         "tables have the shape (k BIGINT, v INT, p TEXT) without constraints; rows stay under ~150 bytes and at most two tables per case are "
         "preloaded (larger cells / more big catalog rows run into the C10 finding KF-C10-divider-full-copy even single-threaded)",
     ],
